@@ -9,6 +9,7 @@ pub mod c11;
 pub mod c12;
 pub mod c13;
 pub mod c14;
+pub mod c15;
 
 use crate::report::Tier;
 
@@ -27,6 +28,7 @@ pub fn run(id: &str, tier: &Tier, child: bool) -> Result<i32, String> {
         "C12" => c12::c12(tier),
         "C13" => c13::c13(tier, child),
         "C14" => c14::c14(tier),
+        "C15" => c15::c15(tier),
         "C05" => e2_checks::c05(tier),
         _ => Err(format!("no check registered for {}", id)),
     }
